@@ -18,6 +18,8 @@ func main() {
 		os.Exit(cmdVC(os.Args[2:]))
 	case "check":
 		os.Exit(cmdCheck(os.Args[2:]))
+	case "replay":
+		os.Exit(cmdReplay(os.Args[2:]))
 	case "list":
 		os.Exit(cmdList(os.Args[2:]))
 	default:
